@@ -57,8 +57,31 @@ def run(cmd, cwd=None, env=None, timeout=None, stdout=None, check=True, input=No
 _built = {}
 
 
+_cache_checked = [False]
+
+
+def trim_build_cache(limit_mb=12000):
+    """Every run compiles freshly generated Go sources (generated lexers, named grammar types, -race and -cover variants), all
+    of which end up in Go's build cache: it grew to 120 GB over two days of runs.  Once per process: if the cache is larger than
+    limit_mb, empty it (the next build is slower, nothing else changes)."""
+    if _cache_checked[0]:
+        return
+    _cache_checked[0] = True
+    try:
+        d = subprocess.run(["go", "env", "GOCACHE"], env=GOENV, stdout=subprocess.PIPE, timeout=30).stdout.decode().strip()
+        if not d or not os.path.isdir(d):
+            return
+        out = subprocess.run(["du", "-sm", d], stdout=subprocess.PIPE, stderr=subprocess.DEVNULL, timeout=120).stdout.decode().split()
+        if out and int(out[0]) > limit_mb:
+            log("note: Go build cache %s holds %s MB: emptying it" % (d, out[0]))
+            subprocess.run(["go", "clean", "-cache"], env=GOENV, stdout=subprocess.DEVNULL, stderr=subprocess.DEVNULL, timeout=600)
+    except Exception:
+        pass
+
+
 def build_harness(wd, race=False, tags="verif"):
     """build cmd/vh from /verif/harness against /repo's working tree (hooks on)"""
+    trim_build_cache()
     key = (race, tags)
     if key in _built and os.path.exists(_built[key]):
         return _built[key]
